@@ -28,12 +28,12 @@ func (v lv) write(b *strings.Builder) {
 	b.WriteByte(')')
 }
 
-func Z(i int64) Sx   { return zv{strconv.FormatInt(i, 10)} }
-func U(i uint64) Sx  { return zv{strconv.FormatUint(i, 10)} }
-func I(i int) Sx     { return zv{strconv.Itoa(i)} }
-func B(b []byte) Sx  { return bv{append([]byte(nil), b...)} }
-func S(s string) Sx  { return bv{[]byte(s)} }
-func L(xs ...Sx) Sx  { return lv{xs} }
+func Z(i int64) Sx  { return zv{strconv.FormatInt(i, 10)} }
+func U(i uint64) Sx { return zv{strconv.FormatUint(i, 10)} }
+func I(i int) Sx    { return zv{strconv.Itoa(i)} }
+func B(b []byte) Sx { return bv{append([]byte(nil), b...)} }
+func S(s string) Sx { return bv{[]byte(s)} }
+func L(xs ...Sx) Sx { return lv{xs} }
 func Bool(b bool) Sx {
 	if b {
 		return zv{"1"}
